@@ -5,9 +5,9 @@ import random
 
 from vlib import *  # noqa
 
-CLAUSES = {"C20": {"woken_by_timeout", "cross_wake"}, "C21": {"interest_mismatch"}}
+CLAUSES = {"C20": {"woken_by_timeout", "cross_wake", "wrong_token"}, "C21": {"interest_mismatch"}}
 DEATH = {"panic", "abort", "hang"}
-DEVS = ["records_global", "token_fold32", "resume_without_fd_check", "stale_token_on_rewait"]
+DEVS = ["records_global", "token_fold32", "resume_without_fd_check", "stale_token_on_rewait", "record_token_kept"]
 
 
 def cfg(loops, ops, view):
@@ -41,6 +41,11 @@ def ready_scenarios(rng, thorough):
             # a socket handed from one task to another
             scs.append({"kind": "ready", "loops": loops, "slots": 1, "tasks": [[1], [1, 1, 1, 1]], "starts": [0, 45], "shape": "handed-over",
                         "writes": [[20, 1]] + [[75 + 25 * i + j(), 1] for i in range(4)]})
+            # a socket two tasks take turns on, one waiter at a time: A waits on socket 1 and gives up, B waits on it and gives
+            # up (A sits on socket 3 meanwhile), A waits on it again while B has moved to socket 2; then socket 1 becomes ready, later socket 2
+            # (steps are [socket, receive timeout ms])
+            scs.append({"kind": "ready", "loops": loops, "slots": 3, "tasks": [[[1, 30], [3, 100], [1, 1000]], [[1, 30], [2, 1000]]], "starts": [0, 50],
+                        "shape": "takes-turns", "writes": [[240 + j(), 1], [330 + j(), 2]]})
     for s in scs:
         s["src"] = "readiness-" + s["shape"]
     return scs
@@ -58,7 +63,7 @@ def run(pid, tier):
     if pid == "C21":
         for loops in (1, 2):
             hs, _ = tlc_replays("Selector", cfg(loops, 5 if thorough else 4, True), "fin%d" % loops)
-            hs = [[o for o in h if o["op"] != "ready"] for h in hs]
+            hs = [[o for o in h if o["op"] not in ("ready", "timeout")] for h in hs]
             seen, uniq = set(), []
             for h in hs:
                 k = json.dumps(h, sort_keys=True)
@@ -71,7 +76,7 @@ def run(pid, tier):
                 uniq = rng.sample(uniq, cap)
             scs += [{"kind": "interest", "loops": loops, "hist": h, "src": "tlc-final-states"} for h in uniq]
             hs, _ = tlc_replays("Selector", cfg(loops, 14, False), "sim%d" % loops, simulate=(200 if thorough else 15), depth=15, sd=seed())
-            hs = [[o for o in h if o["op"] != "ready"] for h in hs]
+            hs = [[o for o in h if o["op"] not in ("ready", "timeout")] for h in hs]
             cov["tlc_simulated_histories"] = cov.get("tlc_simulated_histories", 0) + len(hs)
             scs += [{"kind": "interest", "loops": loops, "hist": h, "src": "tlc-simulate"} for h in hs if h]
     else:
